@@ -163,6 +163,10 @@ def block_table(thorough):
               B("FftFilter", {"taps": [1, 2]}, "small", 3000, ID),
               B("Delay<u8>", {"delay": 5000}, "bytes", 6000, {"kind": "delay", "arg": 5000}),
               B("RationalResampler<u8>", {"interp": 3, "deci": 1}, "ramp", 3000)]
+    # a block that emits when it is dropped: the digest of everything it was given (appended last
+    # so that the data seeds of the entries above do not move)
+    t += [B("Hasher", {}, "bytes", 300, extra={"drop_flush": True}),
+          B("Hasher", {}, "bytes", 5000, extra={"drop_flush": True})]
     return t
 
 
